@@ -1,8 +1,12 @@
 ---- MODULE BclGrammar ----
 \* L1: recogniser/AST builder for the documented grammar over token classes (no error recovery), plus static rules.
 EXTENDS BclSem
-Vocab == {"INT1", "INT2", "STR", "IDx", "IDstruct", "IDall", "var", "def", "eval", "print", "bind", "true", "not", "and",
+\* the reduced vocabulary: one representative per syntactic class (used for the exhaustive short strings)
+VocabSmall == {"INT1", "INT2", "STR", "IDx", "IDstruct", "IDall", "var", "def", "eval", "print", "bind", "true", "not", "and",
           "=", "{", "}", "(", ")", "==", "+", "*", ":", "->", ";"}
+\* the full vocabulary: every token kind and every operator spelling (each has its own code path in an implementation)
+VocabFull == VocabSmall \cup {"or", "-", "/", "!=", "<", "<=", ">", ">=", "FLOAT", "false", "nil", "IDslice", "IDfirst", "IDlast"}
+Vocab == VocabSmall
 Spell(k) == CASE k = "INT1" -> <<49>> [] k = "INT2" -> <<50>> [] k = "STR" -> <<34, 115, 34>> [] k = "IDx" -> <<120>>
               [] k = "IDstruct" -> <<115, 116, 114, 117, 99, 116>> [] k = "IDall" -> <<97, 108, 108>>
               [] k = "var" -> <<118, 97, 114>> [] k = "def" -> <<100, 101, 102>> [] k = "eval" -> <<101, 118, 97, 108>>
@@ -10,12 +14,15 @@ Spell(k) == CASE k = "INT1" -> <<49>> [] k = "INT2" -> <<50>> [] k = "STR" -> <<
               [] k = "not" -> <<110, 111, 116>> [] k = "and" -> <<97, 110, 100>> [] k = "=" -> <<61>> [] k = "{" -> <<123>> [] k = "}" -> <<125>>
               [] k = "(" -> <<40>> [] k = ")" -> <<41>> [] k = "==" -> <<61, 61>> [] k = "+" -> <<43>> [] k = "*" -> <<42>>
               [] k = ":" -> <<58>> [] k = "->" -> <<45, 62>> [] k = ";" -> <<59>>
+              [] k = "or" -> <<111, 114>> [] k = "-" -> <<45>> [] k = "/" -> <<47>> [] k = "!=" -> <<33, 61>> [] k = "<" -> <<60>> [] k = "<=" -> <<60, 61>>
+              [] k = ">" -> <<62>> [] k = ">=" -> <<62, 61>> [] k = "FLOAT" -> <<50, 46, 53>> [] k = "false" -> <<102, 97, 108, 115, 101>> [] k = "nil" -> <<110, 105, 108>>
+              [] k = "IDslice" -> <<115, 108, 105, 99, 101>> [] k = "IDfirst" -> <<102, 105, 114, 115, 116>> [] k = "IDlast" -> <<108, 97, 115, 116>>
 RECURSIVE Src(_)
 Src(ts) == IF ts = <<>> THEN <<>> ELSE Spell(Head(ts)) \o <<32>> \o Src(Tail(ts))
 At(ts, i) == IF i <= Len(ts) THEN ts[i] ELSE "EOF"
-IsIdent(k) == k \in {"IDx", "IDstruct", "IDall"}
-IdName(k) == CASE k = "IDx" -> "x" [] k = "IDstruct" -> "struct" [] k = "IDall" -> "all"
-BinPrec(k) == CASE k = "and" -> 3 [] k = "==" -> 5 [] k = "+" -> 7 [] k = "*" -> 8 [] OTHER -> 0
+IsIdent(k) == k \in {"IDx", "IDstruct", "IDall", "IDslice", "IDfirst", "IDlast"}
+IdName(k) == CASE k = "IDx" -> "x" [] k = "IDstruct" -> "struct" [] k = "IDall" -> "all" [] k = "IDslice" -> "slice" [] k = "IDfirst" -> "first" [] k = "IDlast" -> "last"
+BinPrec(k) == CASE k = "or" -> 2 [] k = "and" -> 3 [] k \in {"==", "!="} -> 5 [] k \in {"<", "<=", ">", ">="} -> 6 [] k \in {"+", "-"} -> 7 [] k \in {"*", "/"} -> 8 [] OTHER -> 0
 Fl(i) == [ok |-> FALSE, i |-> i, e |-> NoE]
 Ok(i, e) == [ok |-> TRUE, i |-> i, e |-> e]
 RECURSIVE PExpr(_, _, _)
@@ -26,18 +33,21 @@ PExpr(ts, i, minp) ==
     CASE k \in {"INT1", "INT2"} -> Ok(i + 1, Lit(IntV(IF k = "INT1" THEN 1 ELSE 2)))
       [] k = "STR" -> Ok(i + 1, Lit(StrV(<<115>>)))
       [] k = "true" -> Ok(i + 1, Lit(BoolV(TRUE)))
+      [] k = "false" -> Ok(i + 1, Lit(BoolV(FALSE)))
+      [] k = "nil" -> Ok(i + 1, Lit(NilV))
+      [] k = "FLOAT" -> Ok(i + 1, Lit(FloatV(5, 2)))
       [] IsIdent(k) -> (IF minp <= 1 /\ At(ts, i + 1) = "="
                         THEN LET r == PExpr(ts, i + 2, 1) IN IF r.ok THEN Ok(r.i, Asg(IdName(k), r.e)) ELSE r
                         ELSE Ok(i + 1, Id(IdName(k))))
       [] k = "(" -> (LET r == PExpr(ts, i + 1, 1) IN IF r.ok /\ At(ts, r.i) = ")" THEN Ok(r.i + 1, Par(r.e)) ELSE Fl(r.i))
-      [] k = "+" -> (LET r == PExpr(ts, i + 1, 9) IN IF r.ok THEN Ok(r.i, Un("+", r.e)) ELSE r)
+      [] k \in {"+", "-"} -> (LET r == PExpr(ts, i + 1, 9) IN IF r.ok THEN Ok(r.i, Un(k, r.e)) ELSE r)
       [] k = "not" -> (LET r == PExpr(ts, i + 1, 4) IN IF r.ok THEN Ok(r.i, Un("not", r.e)) ELSE r)
       [] OTHER -> Fl(i)
   IN IF left.ok THEN PLoop(ts, left.i, minp, left.e) ELSE left
 PLoop(ts, i, minp, left) ==
   LET k == At(ts, i) q == BinPrec(k) IN
   IF q > 0 /\ q >= minp THEN
-     LET r == PExpr(ts, i + 1, IF k = "and" THEN q ELSE q + 1) IN
+     LET r == PExpr(ts, i + 1, IF k \in {"and", "or"} THEN q ELSE q + 1) IN
      IF r.ok THEN PLoop(ts, r.i, minp, Bin(k, left, r.e)) ELSE r
   ELSE Ok(i, left)
 FlS(i) == [ok |-> FALSE, i |-> i, ss |-> <<>>]
@@ -59,11 +69,11 @@ PStmt(ts, i, depth) ==
     [] k = "bind" -> (IF ~IsIdent(At(ts, i + 1)) THEN FlS(i + 1)
                       ELSE LET hasSel == At(ts, i + 2) = ":"
                                selTok == At(ts, i + 3)
-                               sel == IF ~hasSel THEN "none" ELSE IF selTok = "INT1" THEN "one" ELSE IF selTok = "IDall" THEN "all" ELSE "bogus"
+                               sel == IF ~hasSel THEN "none" ELSE IF selTok = "INT1" THEN "one" ELSE IF selTok = "IDall" THEN "all" ELSE IF selTok = "IDfirst" THEN "first" ELSE IF selTok = "IDlast" THEN "last" ELSE "bogus"
                                selOk == ~hasSel \/ selTok \in {"INT1", "INT2"} \/ IsIdent(selTok)
                                j == IF hasSel THEN i + 4 ELSE i + 2
                            IN IF ~selOk THEN FlS(i + 3) ELSE IF At(ts, j) # "->" THEN FlS(j) ELSE IF ~IsIdent(At(ts, j + 1)) THEN FlS(j + 1)
-                              ELSE [ok |-> TRUE, i |-> j + 2, ss |-> <<SBind(IdName(At(ts, i + 1)), sel, IF At(ts, j + 1) = "IDstruct" THEN "struct" ELSE "bogus")>>])
+                              ELSE [ok |-> TRUE, i |-> j + 2, ss |-> <<SBind(IdName(At(ts, i + 1)), sel, IF At(ts, j + 1) = "IDstruct" THEN "struct" ELSE IF At(ts, j + 1) = "IDslice" THEN "slice" ELSE "bogus")>>])
     [] OTHER -> (IF depth = 0 THEN FlS(i)
                  ELSE LET r == PExpr(ts, i, 1) IN IF r.ok THEN [ok |-> TRUE, i |-> r.i, ss |-> <<SExpr(r.e)>>] ELSE FlS(r.i))
 PItems(ts, i, depth, acc) ==
